@@ -91,6 +91,7 @@ inductive Op where
 inductive Ev where
   | start (op : Op) (clock : Nat)
   | resume (i : Nat) (clock : Nat)
+  | cancel (i : Nat)         -- the task of the suspended operation `i` is cancelled (its session ends): it takes no more turns
   deriving DecidableEq, Repr
 
 structure World where
@@ -122,6 +123,7 @@ def step (w : World) : Ev → World × List Obs
     match w.tasks[i]? with
     | none => (w, [])
     | some t => place w (some i) (taskTurn t clock w.cs)
+  | .cancel i => ({ w with tasks := w.tasks.eraseIdx i }, [])
 
 def run (w : World) : List Ev → World × List Obs
   | [] => (w, [])
